@@ -150,6 +150,17 @@ def check_prettyprint(rep, prog, ascii_only):
         and parts[0].args[2] == parts[2].args[1]
     fill = parts[1] if len(parts) == 3 else None
     okfill = fill is not None and ((isinstance(fill, Op) and fill.op == "strmul" and Const(" ") in fill.args) or (is_const(fill, str) and set(fill.v) <= {" "}))
+    if not okw and len(parts) == 2 and isinstance(parts[0], Op) and parts[0].op == "m:ljust" and len(parts[0].args) in (2, 3) and \
+            (len(parts[0].args) == 2 or parts[0].args[2] == Const(" ")):
+        # line[:k].ljust(width) + line[k:]   ( = the prefix, blanks up to the width, the rest )
+        pre, rest = parts[0].args[0], parts[1]
+        if line is None and isinstance(pre, Op) and pre.op == "getslice":
+            line = pre.args[0]
+        okw = line is not None and isinstance(pre, Op) and pre.op == "getslice" and pre.args[0] == line and pre.args[1] == NONE and \
+            isinstance(rest, Op) and rest.op == "getslice" and rest.args[0] == line and rest.args[2] == NONE and pre.args[2] == rest.args[1]
+        okfill = okw
+        if okw:
+            parts = [pre, Const(" "), rest]
     rep.check(okw and okfill and same_slot, "C06.R2.whitespace-only",
               "a rewritten line is line[:k] + blanks + line[k:] in its own position (nothing but spaces inserted, nothing removed)", where, node,
               "the alignment pass does more than insert blanks at one position of the same line: %r" % (val,), node=node)
@@ -208,6 +219,28 @@ def check_call_sites(rep, prog):
                 ok = True
             elif isinstance(a, Op) and a.op == "getitem" and a.args[1] == Const(1) and isinstance(a.args[0], Op) and a.args[0].op == "call:" + PT + "parsePEL":
                 ok = True
+            elif isinstance(a, Op) and a.op in ("concat", "fmt", "add"):
+                # the text may be printed together with framing (a separator in front of it): exactly one part is the JSON
+                # text in one of the forms above, no other part is derived from it (the framing itself is checked below)
+                parts = []
+
+                def flat_(t_):
+                    if isinstance(t_, Op) and t_.op == "add":
+                        for x_ in t_.args:
+                            flat_(x_)
+                    else:
+                        parts.extend(flat_parts(t_))
+                flat_(a)
+
+                def is_json(p_):
+                    p_ = p_.args[0] if isinstance(p_, Op) and p_.op == "fv" and p_.args[1:] == (Const(""), Const("")) else p_
+                    return (isinstance(p_, Op) and p_.op == "call:" + PP and isinstance(p_.args[0], Op) and p_.args[0].op == "json.dumps") or \
+                        (isinstance(p_, Op) and p_.op == "getitem" and p_.args[1] == Const(1) and isinstance(p_.args[0], Op) and
+                         p_.args[0].op == "call:" + PT + "parsePEL")
+                jparts = [p_ for p_ in parts if is_json(p_)]
+                rest = [p_ for p_ in parts if not is_json(p_)]
+                ok = len(jparts) == 1 and not any(isinstance(x, Op) and x.op in ("json.dumps", "call:" + PP, "call:" + PT + "parsePEL",
+                                                                                  "call:" + PT + "parsePELSummary") for p_ in rest for x in walk(p_))
             rep.check(ok, rule, "%s:%s emits prettyPrint(json.dumps(...)) unmodified" % (e.func.split(".")[-1], getattr(e.node, "lineno", "?")), e.func, e.node,
                       "JSON text is post-processed / emitted without going through json.dumps+prettyPrint only: %r" % (a,), node=e.node)
     rep.floor("JSON emission sites", n, 7)
